@@ -282,8 +282,8 @@ def find_compile_stamps(
             fh.seek(offset)
             export_dir = pestruct.IMAGE_EXPORT_DIRECTORY(fh)
             export_stamp = export_dir.TimeDateStamp
-    except EOFError:
-        # truncated or corrupt PE headers, return what we have found so far
+    except (EOFError, ValueError, OSError):
+        # truncated or corrupt PE headers (or a refused seek on a memory-mapped file), return what we have found so far
         pass
     return (compile_stamp, export_stamp)
 
